@@ -1668,7 +1668,36 @@ SyntaxVisitor::Action TypeChecker::visitBinaryExpression_Logical(
     return Action::Skip;
 }
 
-SyntaxVisitor::Action TypeChecker::visitConditionalExpression(const ConditionalExpressionSyntax*) { return Action::Skip; }
+SyntaxVisitor::Action TypeChecker::visitConditionalExpression(const ConditionalExpressionSyntax* node)
+{
+    VISIT(node->condition());
+    const Type* whenTrueTy = nullptr;
+    if (node->whenTrue()) {
+        VISIT(node->whenTrue());
+        whenTrueTy = ty_;
+    }
+    else {
+        // GNU: the omitted operand is the condition.
+        whenTrueTy = ty_;
+    }
+    VISIT(node->whenFalse());
+    auto whenFalseTy = ty_;
+
+    // 6.5.15-5 and -6.
+    auto leftTy = unqualifiedAndResolved(whenTrueTy);
+    auto rightTy = unqualifiedAndResolved(whenFalseTy);
+    if (isArithmeticType(leftTy)
+            && isArithmeticType(rightTy)
+            && leftTy->kind() == TypeKind::Basic
+            && rightTy->kind() == TypeKind::Basic) {
+        return typeChecked(node, determineCommonRealType(leftTy->asBasicType(), rightTy->asBasicType()));
+    }
+    if (leftTy->kind() != TypeKind::Pointer
+            && rightTy->kind() == TypeKind::Pointer) {
+        return typeChecked(node, whenFalseTy);
+    }
+    return typeChecked(node, whenTrueTy);
+}
 
 SyntaxVisitor::Action TypeChecker::visitAssignmentExpression(
         const AssignmentExpressionSyntax* node)
